@@ -149,6 +149,10 @@ type world struct {
 	byOuter     map[virtual.LinkableLeaf]*leafRec
 	failNewFile bool // the next NewFile fails (then the flag clears)
 	failSymlink bool // the next LookupSymlink fails (then the flag clears)
+	// point, if set, is called before NewFile / LookupSymlink act: a
+	// scheduling point of the concurrent scenarios at which the calling
+	// thread holds the lock of the directory it is creating the node in.
+	point func(label string)
 }
 
 func newWorld() *world {
@@ -172,6 +176,9 @@ var errInjected = errors.New("injected failure")
 
 // FileAllocator.
 func (w *world) NewFile(holeSource pool.HoleSource, isExecutable bool, size uint64, shareAccess virtual.ShareMask) (virtual.LinkableLeaf, error) {
+	if w.point != nil {
+		w.point("FileAllocator.NewFile")
+	}
 	w.mu.Lock()
 	fail := w.failNewFile
 	w.failNewFile = false
@@ -185,6 +192,9 @@ func (w *world) NewFile(holeSource pool.HoleSource, isExecutable bool, size uint
 type symlinkFactory struct{ w *world }
 
 func (f symlinkFactory) LookupSymlink(target path.Parser) (virtual.LinkableLeaf, error) {
+	if f.w.point != nil {
+		f.w.point("SymlinkFactory.LookupSymlink")
+	}
 	f.w.mu.Lock()
 	fail := f.w.failSymlink
 	f.w.failSymlink = false
